@@ -245,6 +245,9 @@ func (e *Engine) costCheck() *FuncResult {
 		if c := e.contractOf[f]; c != nil && (c.Flags["lemma"] || c.Flags["spec"]) {
 			continue
 		}
+		if isGhostClosure(f) {
+			continue // a woven invariant/assertion closure: never executed
+		}
 		if c := e.contractOf[f]; c != nil && !c.Flags["structural"] {
 			if decs := c.clauses("decreases"); len(decs) > 0 && constantVariant(decs[0].Expr) {
 				continue // every cycle through f lowers a variant that is bounded by a constant
@@ -349,4 +352,56 @@ func (e *Engine) posStr(pos token.Pos) string {
 	}
 	ps := e.fset.Position(pos)
 	return fmt.Sprintf("%s:%d", shortPath(ps.Filename), ps.Line)
+}
+
+// isGhostClosure: an anonymous function that only occurs as an operand of a verifspec call.
+func isGhostClosure(f *ssa.Function) bool {
+	p := f.Parent()
+	if p == nil {
+		return false
+	}
+	found := false
+	for _, b := range p.Blocks {
+		for _, in := range b.Instrs {
+			mc, ok := in.(*ssa.MakeClosure)
+			var val ssa.Value
+			if ok && mc.Fn == f {
+				val = mc
+			}
+			if val == nil {
+				// a closure without free variables is used as a plain function value
+				if call, isCall := in.(ssa.CallInstruction); isCall {
+					for _, a := range call.Common().Args {
+						if a == ssa.Value(f) {
+							if sc := call.Common().StaticCallee(); sc != nil && sc.Pkg != nil && sc.Pkg.Pkg.Path() == verifspecPath {
+								found = true
+							} else {
+								return false
+							}
+						}
+					}
+				}
+				continue
+			}
+			refs := val.Referrers()
+			if refs == nil {
+				continue
+			}
+			for _, r := range *refs {
+				call, isCall := r.(ssa.CallInstruction)
+				if !isCall {
+					if _, isDbg := r.(*ssa.DebugRef); isDbg {
+						continue
+					}
+					return false
+				}
+				sc := call.Common().StaticCallee()
+				if sc == nil || sc.Pkg == nil || sc.Pkg.Pkg.Path() != verifspecPath {
+					return false
+				}
+				found = true
+			}
+		}
+	}
+	return found
 }
